@@ -363,8 +363,16 @@ impl G<'_> {
             }
             15 => {
                 const Q: &[&str] = &["query ", "exists ", "count_up_to 2 ", "at_least 1 ", "at_most 1 ", "exactly 1 ", "count_up_to 0 ", "at_least -1 "];
-                let k = self.c.below(Q.len());
-                self.w(Q[k]);
+                if self.c.chance(1, 6) {
+                    const C: &[&str] = &["count_up_to ", "at_least ", "at_most ", "exactly "];
+                    let k = self.c.below(C.len());
+                    self.w(C[k]);
+                    self.int();
+                    self.w(" ");
+                } else {
+                    let k = self.c.below(Q.len());
+                    self.w(Q[k]);
+                }
                 self.fact_literal(d + 1);
             }
             16 => {
@@ -1608,6 +1616,7 @@ fn case() -> impl Strategy<Value = Case> {
         5 => any::<u16>().prop_map(|k| vocab(k).to_string()),
         2 => prop::sample::select(IDENTS.to_vec()).prop_map(str::to_string),
         1 => (0u32..300).prop_map(|n| n.to_string()),
+        1 => "-?[0-9]{17,22}",
         1 => "\"[a-z\\\\x\"]{0,4}\"",
         1 => "[ -~]{1,3}",
     ];
